@@ -87,6 +87,7 @@ Definition oracle (prop comp : N) (c : sx) (impl : list ev) : bool :=
   | 8, 3 => int_oracle c impl
   | 9, 4 => path_oracle c impl
   | 18, 4 => path_oracle c impl
+  | 18, 40 => c18_aml_oracle c impl
   | 16, 5 => eisa_oracle c impl
   | 16, 6 => uuid_oracle c impl
   | 6, 40 => c06_oracle c impl
